@@ -43,7 +43,7 @@ func (h *H) registerProducerCases() {
 	}
 	defer f.Close()
 	_, height := f.Tip()
-	for i := 0; i < h.run.N(60, 800); i++ {
+	for i := 0; i < h.run.N(60, 400); i++ {
 		version := byte(h.rng.PickU64(0, 1, 2, 3, 3, 2, 4))
 		owner := h.ks[h.rng.Intn(4)]
 		node := h.ks[4+h.rng.Intn(4)]
@@ -183,7 +183,7 @@ func (h *H) crossChainV0Cases(params *config.Configuration, chain *blockchain.Bl
 		c{[]string{"a"}, []uint64{1<<64 - 1}, []common.Fixed64{5}, []*common2.Output{xOut(0x4B, 100000)}, 200000, "index 2^64-1"},
 		c{[]string{"a"}, []uint64{1}, []common.Fixed64{5}, []*common2.Output{xOut(0x4B, 100000)}, 200000, "index = len"},
 		c{[]string{"a"}, []uint64{0}, []common.Fixed64{5}, []*common2.Output{xOut(0x4B, 100000)}, 200000, "accept"})
-	for i := 0; i < h.run.N(60, 1000); i++ {
+	for i := 0; i < h.run.N(60, 500); i++ {
 		n := h.rng.Range(0, 3)
 		nOut := h.rng.Range(0, 4)
 		var x c
@@ -305,7 +305,7 @@ func (h *H) returnSideChainDepositCases(params *config.Configuration, st *state.
 		return ids[u]
 	}
 	fee := params.ReturnDepositCoinFee
-	n := h.run.N(60, 1000)
+	n := h.run.N(60, 500)
 	for i := -1; i < n; i++ {
 		ids := map[common.Uint168]int{}
 		sideID := phID(side, ids)
@@ -464,7 +464,7 @@ func (h *H) arbiterSignatureCases(mock *state.ArbitratorsMock) {
 	foreign := msCode(0, minSign, [][]byte{keys[0], keys[1], keys[2], h.ks[6].enc}, 0, nArb, 0xAE)
 	lowM := msCode(0, minSign-1, keys, 0, nArb, 0xAE)
 	lists = append(lists, [][]byte{foreign}, [][]byte{lowM}, [][]byte{msCode(0, 2, keys[:3], 0, 3, 0xAE)}, [][]byte{stdCode(keys[0])})
-	for i := 0; i < h.run.N(10, 150); i++ {
+	for i := 0; i < h.run.N(10, 80); i++ {
 		nb := h.neighbours(h.randomCode())
 		lists = append(lists, [][]byte{nb[h.rng.Intn(len(nb))]})
 	}
